@@ -39,7 +39,7 @@ def run(ctx):
         p = ex.alloc(st, Agg(aff, (Opaque('x'), Opaque('y'), z3.Bool('inf'))))
         res = ex.call(st, '<%s as SubgroupCheck>::in_subgroup' % aff, [p])
         chk.must_unsat('%s.in_subgroup = is_on_curve && ([r]P == O)' % gname, z3.Xor(C.mk(res), z3.And(oc, sg)), group='predicate')
-        chk.ground('%s.in_subgroup tests the curve equation before the scalar multiplication' % gname, order[:1] == ['curve'], str(order))
+        chk.note('%s.in_subgroup evaluation order of the two conjuncts: %s (informational; either order satisfies the property)' % (gname, order))
         chk.add_executor(ex)
         # scale_by_cofactor multiplier
         D = models.GroupDomain(proj, aff).setup(1, proj, aff)
@@ -104,6 +104,7 @@ def run(ctx):
                3 * f2 * f2 == f2sq and ref.H2 * r in twists, 'h2*r matches twist #%s' % [i for i, v in enumerate(twists) if v == ref.H2 * r])
     chk.ground('gcd(h1, r) = gcd(h2, r) = 1 (cofactor scaling maps onto the order-r subgroup, no r^2 torsion)', ref.H1 % r != 0 and ref.H2 % r != 0)
     c08_mont.literals(ctx)
+    decoders(ctx)
     chk.assumptions += ['closure of the safe API (induction, not a solver query): every constructor of a point either checks membership (decoders C04/C19), multiplies by a '
                         'cofactor multiple (random: here; clear_h: C17), or applies group operations to members (C01, C02, C10); hash/map outputs: C14',
                         'E(Fq) and E\'(Fq2) have the group structure Z/h x Z/r with gcd(h, r) = 1 (so [h] maps onto the subgroup and [r]P = O characterises it)']
@@ -111,11 +112,132 @@ def run(ctx):
     chk.discharge()
     ids.settle()
     C.settle_structural(ctx, ('case-structure', 'predicate', 'random'), 'subgroup')
+    bad = native_decoder_probes(ctx)
+    for o in chk.failed():
+        if o.group == 'decoders' and not getattr(o, 'handled', False):
+            o.handled = True
+            if not bad:
+                ctx.inconclusive('decoder obligation fails (%s) but no native probe is accepted' % o.name)
     for g_ in chk.grounds:
         if not g_[1]:
             chk.ground_handled = getattr(chk, 'ground_handled', {})
             chk.ground_handled[g_[0]] = True
             ctx.violation('subgroup-ground:' + g_[0][:40], 'fact fails: %s (%s)' % (g_[0], g_[2]), {'fact': g_[0], 'detail': g_[2]})
+
+
+def decoders(ctx):
+    """the four CHECKED point decoders hand out a point only after the membership predicate has accepted it: the MIR of
+    EncodedPoint::into_affine for G1/G2 Compressed/Uncompressed is executed with into_affine_unchecked, is_on_curve and in_subgroup
+    uninterpreted (their own correctness is C04 / the predicate above) and all encoding bytes symbolic; Ok(p) is returned exactly when the
+    unchecked decoder produced p, p passes in_subgroup and -- for the uncompressed forms, whose y is not derived from the curve equation --
+    is_on_curve."""
+    chk = ctx.chk
+    for gname, aff, enc, size, unc in [('G1', 'ec::g1::G1Affine', 'ec::g1::G1Compressed', 48, False), ('G1', 'ec::g1::G1Affine', 'ec::g1::G1Uncompressed', 96, True),
+                                        ('G2', 'ec::g2::G2Affine', 'ec::g2::G2Compressed', 96, False), ('G2', 'ec::g2::G2Affine', 'ec::g2::G2Uncompressed', 192, True)]:
+        un_ok, oc, sg = z3.Bool('unchecked_ok'), z3.Bool('on_curve'), z3.Bool('in_subgroup')
+        pt = Agg(aff, (Opaque('x'), Opaque('y'), z3.Bool('inf')))
+
+        def h_un(ex, st, m, a, pt=pt, un_ok=un_ok):
+            return Enum('Result', z3.If(un_ok, z3.BitVecVal(0, 64), z3.BitVecVal(1, 64)), {'Ok': (pt,), 'Err': (Enum('GroupDecodingError', z3.BitVec('unchecked_error_kind', 64), {}),)})
+
+        def h_branch(ex, st, m, a):
+            r = a[0]
+            return Enum('ControlFlow', r.disc, {'Continue': r.payload['Ok'], 'Break': (Enum('Result', 1, {'Err': r.payload['Err']}),)})
+
+        def h_resid(ex, st, m, a):
+            return Enum('Result', 1, {'Err': a[0].payload['Err']})
+        pe = enc.replace('::', r'::')
+        pa = aff.replace('::', r'::')
+        ex = C.new_executor(ctx, [(r'<%s as EncodedPoint>::into_affine_unchecked' % pe, h_un),
+                                  (r'<Result<.+> as (?:std::ops::)?Try>::branch', h_branch),
+                                  (r'<Result<.+> as (?:std::ops::)?FromResidual<.+>>::from_residual', h_resid),
+                                  (r'ec::%s::<impl [^>]+>::is_on_curve|%s::is_on_curve' % (gname.lower(), pa), lambda ex, st, m, a, oc=oc: oc),
+                                  (r'<%s as SubgroupCheck>::in_subgroup' % pa, lambda ex, st, m, a, sg=sg: sg)])
+        fl = [f for f in ex.fns_named('into_affine') if len(f.params) == 1 and enc.split('::')[-1] in f.params[0][1]]
+        if len(fl) != 1:
+            raise Inconclusive('into_affine body for %s: %d candidates' % (enc, len(fl)))
+        st = State()
+        data = [z3.BitVec('byte%d' % i, 8) for i in range(size)]
+        me = ex.alloc(st, Agg(enc, (Agg('[array]', [BV(8, False, b) for b in data]),)))
+        nob = len(ex.obligations)
+        r = ex.call_fn(st, fl[0], [me], {})
+        name = '%s::into_affine' % enc.split('::')[-1]
+        is_ok = (r.disc == 0) if not isinstance(r.disc, int) else z3.BoolVal(r.disc == 0)
+        want = z3.And(un_ok, sg, oc) if unc else z3.And(un_ok, sg)
+        chk.must_unsat('%s returns Ok exactly when the unchecked decoder succeeded and the point passed %sin_subgroup (for every encoding)' % (name, 'is_on_curve and ' if unc else ''),
+                       z3.Xor(is_ok, want), group='decoders')
+        okp = r.payload.get('Ok', (None,))[0]
+        same = isinstance(okp, Agg) and len(okp.f) == 3 and all(x is y_ or (hasattr(x, 'what') and hasattr(y_, 'what') and x.what == y_.what) or (z3.is_expr(x) and z3.is_expr(y_) and x.eq(y_))
+                                                                   for x, y_ in zip(okp.f, pt.f))
+        chk.ground('%s hands out the point the unchecked decoder produced, unchanged' % name, same, repr(okp)[:100])
+        chk.must_unsat_any('%s: no panic' % name, [o.formula() for o in ex.obligations[nob:]])
+        ex.harvested = len(ex.obligations)
+        chk.add_executor(ex)
+
+
+def native_decoder_probes(ctx):
+    """replay target for the decoder obligations (and a supplementary oracle): encodings of curve points OUTSIDE the order-r subgroup and of
+    off-curve pairs, with either value of the sort flag, through the native checked decoders -- none may be accepted"""
+    import random
+    from mirsym import load
+    q, r = ref.Q, ref.R_ORDER
+    rnd = random.Random(ctx.seed + 7)
+
+    def be(v, n=48):
+        return v.to_bytes(n, 'big')
+    probes = []
+    # G1: the order-3 points (0, +-2) and a random curve point (in the subgroup with probability 1/h1 ~ 2^-125)
+    pts1 = [(0, 2), (0, q - 2)]
+    x = rnd.randrange(q)
+    while ref.fq_sqrt((x ** 3 + 4) % q) is None:
+        x = rnd.randrange(q)
+    y = ref.fq_sqrt((x ** 3 + 4) % q)
+    pts1 += [(x, y), (x, q - y)]
+    for (x, y) in pts1:
+        if ref.E1.smul(r, (x, y)) is None:
+            continue
+        big = y > (q - y)
+        for flag in (0x80, 0xa0):
+            if (flag == 0xa0) != big:
+                continue            # the sort flag has to agree with y, otherwise it is simply the encoding of the other root
+            b = bytearray(be(x))
+            b[0] |= flag
+            probes.append(('g1c', bytes(b), 'G1 compressed, curve point outside the subgroup, sort flag %s' % ('set' if flag == 0xa0 else 'clear')))
+        probes.append(('g1u', be(x) + be(y), 'G1 uncompressed, curve point outside the subgroup'))
+    probes.append(('g1u', be(5) + be(7), 'G1 uncompressed, off-curve pair'))
+    # G2: small x with a square right-hand side (a random curve point of E'(Fq2))
+    pts2 = []
+    for x0 in range(1, 40):
+        xx = (x0, 0)
+        yy = ref.f2_sqrt(ref.f2_add(ref.f2_mul(ref.f2_sqr(xx), xx), (4, 4)))
+        if yy is not None and ref.E2.smul(r, (xx, yy)) is not None:
+            pts2 += [(xx, yy), (xx, ref.f2_neg(yy))]
+            if len(pts2) >= 4:
+                break
+    for (xx, yy) in pts2:
+        ny = ref.f2_neg(yy)
+        big = (yy[1], yy[0]) > (ny[1], ny[0])
+        b = bytearray(be(xx[1]) + be(xx[0]))
+        b[0] |= 0xa0 if big else 0x80
+        probes.append(('g2c', bytes(b), 'G2 compressed, curve point outside the subgroup, sort flag %s' % ('set' if big else 'clear')))
+        probes.append(('g2u', be(xx[1]) + be(xx[0]) + be(yy[1]) + be(yy[0]), 'G2 uncompressed, curve point outside the subgroup'))
+    probes.append(('g2u', be(0) + be(5) + be(0) + be(7), 'G2 uncompressed, off-curve pair'))
+    n = load.Native('release')
+    try:
+        outs = n.run(['decode %s %s' % (k, b.hex()) for k, b, _ in probes])
+    finally:
+        n.close()
+    bad = [(k, b, nm, o) for (k, b, nm), o in zip(probes, outs) if o.startswith('ok')]
+    ctx.chk.extra['native_decoder_probes'] = {'probes': len(probes), 'accepted': len(bad), 'role': 'replay target / supplementary oracle'}
+    seen = set()
+    for k, b, nm, o in bad:
+        key = 'subgroup-decoder-native:%s:%s' % (k, 'sort-flag-set' if 'flag set' in nm else 'sort-flag-clear' if 'flag clear' in nm else 'plain')
+        if key in seen:
+            continue
+        seen.add(key)
+        ctx.violation(key, 'the checked decoder accepts an encoding of a point that is not in the order-r subgroup (%s): %s' % (nm, o[:60]),
+                      {'cmd': 'decode %s %s' % (k, b.hex()), 'what': nm, 'got': o, 'expected': 'err NotInSubgroup / NotOnCurve', 'profile': 'release'})
+    return bad
 
 
 def replay(ctx, path):
